@@ -15,8 +15,22 @@ def generate(rng, tier, shard, nshards):
         pool = cs + rng.sample(rops.CHARS, 2)          # the pattern may mention characters outside the set
         r = rops.rand_re(rng, pool)
         L = 3 if k <= 4 else 2
+        dead = i % 5 == 1
+        if dead:
+            # a branch that dies only relative to the character set: x [^ all of the set] -- the compiled FSM still has
+            # a way on (any character outside the set), the automaton over the set has none
+            k = rng.choice([2, 3])
+            cs = rng.sample(rops.CHARS, k)
+            pool = list(cs)
+            hole = {"t": "cat", "l": {"t": "lit", "c": cs[0]}, "r": {"t": "ncls", "cs": list(cs)}}
+            if rng.random() < 0.5:
+                hole = {"t": "cat", "l": hole, "r": rops.rand_re(rng, pool)}
+            r = {"t": "alt", "l": hole, "r": rops.rand_re(rng, pool)} if rng.random() < 0.85 else hole
+            if rng.random() < 0.3:
+                r = {"t": "cat", "l": rops.rand_re(rng, pool), "r": r}
+            L = 3
         args = {"re": r, "cs": sorted(cs), "L": L if tier == "quick" else L + 1}
-        ft = rops.refeat(r)
+        ft = rops.refeat(r) + ("+charset-dead-branch" if dead else "")
         if i % 3 == 0:        # the caller reuses one character-set object for several patterns
             args["warm"] = [rops.rand_re(rng, pool) for _ in range(rng.randint(1, 2))]
             ft = ft + "+charset-reused"
